@@ -363,5 +363,5 @@ func drawIndex(t *rapid.T) icase {
 func TestMatIndex(t *testing.T) {
 	cases := indexCases()
 	vk.Enumerate(t, "mat-index", len(cases), func(i int) icase { return cases[i] }, checkIndex)
-	vk.Run(t, "mat-index", vk.Opts{Quick: 10000, Thorough: 200000}, drawIndex, checkIndex)
+	vk.Run(t, "mat-index", vk.Opts{Quick: 10000, Thorough: 200000, NoCrumb: true}, drawIndex, checkIndex)
 }
